@@ -82,7 +82,12 @@ type ctlLoop struct {
 	defMod  int64
 	exempt  map[int64]int64 // key -> mod
 	checked bool
+	helpers []string // helper functions that hold part of the pass (the registration)
 }
+
+// ctlPassWriters: the functions that write the key table as part of the control-byte pass: the function
+// holding the loop and the helpers the loop hands its byte to.  Filled while the builder is folded.
+var ctlPassWriters = map[string]bool{}
 
 func (ev *keyEval) fail(pos token.Pos, msg string) {
 	if ev.err == "" {
@@ -352,6 +357,13 @@ func (ev *keyEval) block(b *ast.BlockStmt, env map[types.Object]kval, fd *ast.Fu
 
 // zeroOf: the zero value of a foldable type.
 func zeroOf(t types.Type) kval {
+	if st, ok := t.Underlying().(*types.Struct); ok {
+		out := kval{kind: 'R', rec: map[string]kval{}}
+		for i := 0; i < st.NumFields(); i++ {
+			out.rec[st.Field(i).Name()] = zeroOf(st.Field(i).Type())
+		}
+		return out
+	}
 	if b, ok := t.Underlying().(*types.Basic); ok {
 		switch {
 		case b.Info()&types.IsString != 0:
@@ -386,6 +398,12 @@ func (ev *keyEval) tableValue(obj types.Object) kval {
 }
 
 func (ev *keyEval) literal(cl *ast.CompositeLit, t types.Type) kval {
+	return ev.literalEnv(cl, t, nil)
+}
+
+// literalEnv: a composite literal whose elements may mention local values (a struct of capability
+// strings picked from the description).
+func (ev *keyEval) literalEnv(cl *ast.CompositeLit, t types.Type, env map[types.Object]kval) kval {
 	switch u := t.Underlying().(type) {
 	case *types.Array, *types.Slice:
 		var elemT types.Type
@@ -401,9 +419,9 @@ func (ev *keyEval) literal(cl *ast.CompositeLit, t types.Type) kval {
 			}
 			var row kval
 			if inner, isCL := el.(*ast.CompositeLit); isCL {
-				row = ev.literal(inner, elemT)
+				row = ev.literalEnv(inner, elemT, env)
 			} else {
-				row = ev.expr(el, nil)
+				row = ev.expr(el, env)
 			}
 			if row.kind == 0 {
 				return kval{}
@@ -428,7 +446,7 @@ func (ev *keyEval) literal(cl *ast.CompositeLit, t types.Type) kval {
 			if name == "" {
 				return kval{}
 			}
-			v := ev.expr(ve, nil)
+			v := ev.expr(ve, env)
 			if v.kind == 0 {
 				return kval{}
 			}
@@ -670,6 +688,12 @@ func (ev *keyEval) stmt(st ast.Stmt, env map[types.Object]kval, fd *ast.FuncDecl
 			return flowReturn
 		}
 		ev.ctl = cl
+		if fd != nil {
+			ctlPassWriters[fd.Name.Name] = true
+		}
+		for _, h := range cl.helpers {
+			ctlPassWriters[h] = true
+		}
 		ev.applyCtlLoop(cl, s.Pos())
 	default:
 		ev.fail(st.Pos(), fmt.Sprintf("statement %T", st))
@@ -809,6 +833,10 @@ func (ev *keyEval) expr(e ast.Expr, env map[types.Object]kval) kval {
 	switch x := e.(type) {
 	case *ast.ParenExpr:
 		return ev.expr(x.X, env)
+	case *ast.CompositeLit:
+		if tv, ok := ev.pk.TypesInfo.Types[x]; ok && tv.Type != nil {
+			return ev.literalEnv(x, tv.Type, env)
+		}
 	case *ast.Ident:
 		obj := ev.pk.TypesInfo.Uses[x]
 		if v, ok := env[obj]; ok {
@@ -1042,9 +1070,41 @@ func (ev *keyEval) matchCtlLoop(fs *ast.ForStmt) *ctlLoop {
 		})
 		return found
 	}
-	for _, st := range fs.Body.List {
+	var handle func(st ast.Stmt, depth int)
+	handle = func(st ast.Stmt, depth int) {
 		switch s := st.(type) {
+		case *ast.ExprStmt:
+			// t.prepareControlKey(c): the registration in a helper that gets the byte
+			call, ok := s.X.(*ast.CallExpr)
+			if !ok || depth > 0 {
+				break
+			}
+			if callee := calleeObj(ev.pk, call); callee != nil {
+				if hd := ev.decls[callee]; hd != nil && hd.Body != nil {
+					cl.helpers = append(cl.helpers, callee.Name())
+					for _, hs := range hd.Body.List {
+						handle(hs, depth+1)
+					}
+				}
+			}
 		case *ast.IfStmt:
+			// if key == K1 || key == K2 … { mod = M }: the keys that are typed without Ctrl
+			if keys, ok := orChainConsts(info, s.Cond); ok && len(keys) > 0 {
+				var assigned int64 = -1
+				for _, b := range s.Body.List {
+					if as, isAs := b.(*ast.AssignStmt); isAs && len(as.Lhs) == 1 && len(as.Rhs) == 1 {
+						if v, isC := intConst(info, as.Rhs[0]); isC {
+							assigned = v
+						}
+					}
+				}
+				if assigned >= 0 {
+					for _, k := range keys {
+						cl.exempt[k] = assigned
+					}
+				}
+				break
+			}
 			// if t.startsKeySequence(byte(i)) { continue }
 			call, ok := s.Cond.(*ast.CallExpr)
 			if !ok || len(s.Body.List) != 1 {
@@ -1099,7 +1159,7 @@ func (ev *keyEval) matchCtlLoop(fs *ast.ForStmt) *ctlLoop {
 			}
 		case *ast.AssignStmt:
 			if len(s.Lhs) == 1 && len(s.Rhs) == 1 {
-				if id, ok := s.Lhs[0].(*ast.Ident); ok && id.Name == "mod" {
+				if id, ok := s.Lhs[0].(*ast.Ident); ok && isModMaskIdent(info, id) {
 					if v, ok := intConst(info, s.Rhs[0]); ok {
 						cl.defMod = v
 					}
@@ -1116,7 +1176,7 @@ func (ev *keyEval) matchCtlLoop(fs *ast.ForStmt) *ctlLoop {
 				var assigned int64 = -1
 				for _, b := range clause.Body {
 					if as, ok := b.(*ast.AssignStmt); ok && len(as.Lhs) == 1 {
-						if id, ok := as.Lhs[0].(*ast.Ident); ok && id.Name == "mod" {
+						if id, ok := as.Lhs[0].(*ast.Ident); ok && isModMaskIdent(info, id) {
 							if v, ok := intConst(info, as.Rhs[0]); ok {
 								assigned = v
 							}
@@ -1131,11 +1191,36 @@ func (ev *keyEval) matchCtlLoop(fs *ast.ForStmt) *ctlLoop {
 			}
 		}
 	}
+	for _, st := range fs.Body.List {
+		handle(st, 0)
+	}
 	if !sawRange || !sawStore || cl.bound < 0 || cl.defMod < 0 {
 		return nil
 	}
 	cl.checked = true
 	return cl
+}
+
+// orChainConsts: e is `x == K1 || x == K2 || …` (or a single `x == K`) with constant Ks: the Ks.
+func orChainConsts(info *types.Info, e ast.Expr) ([]int64, bool) {
+	switch x := e.(type) {
+	case *ast.ParenExpr:
+		return orChainConsts(info, x.X)
+	case *ast.BinaryExpr:
+		switch x.Op {
+		case token.LOR:
+			l, okL := orChainConsts(info, x.X)
+			r, okR := orChainConsts(info, x.Y)
+			return append(l, r...), okL && okR
+		case token.EQL:
+			if v, ok := intConst(info, x.Y); ok {
+				if _, isConst := intConst(info, x.X); !isConst {
+					return []int64{v}, true
+				}
+			}
+		}
+	}
+	return nil, false
 }
 
 func (ev *keyEval) applyCtlLoop(cl *ctlLoop, pos token.Pos) {
@@ -1177,4 +1262,17 @@ func prefixPair(t *keyTable) (string, string) {
 		}
 	}
 	return "", ""
+}
+
+// isModMaskIdent: the identifier is a variable of type ModMask (the modifier a control key is registered with).
+func isModMaskIdent(info *types.Info, id *ast.Ident) bool {
+	obj := info.Defs[id]
+	if obj == nil {
+		obj = info.Uses[id]
+	}
+	if obj == nil {
+		return false
+	}
+	n, ok := obj.Type().(*types.Named)
+	return ok && n.Obj().Name() == "ModMask"
 }
